@@ -1,3 +1,5 @@
+import Hm.C05Conv
+import Hm.C07Resp
 import Hm.C10Req
 import Hm.C02
 import Hm.C07
@@ -95,3 +97,8 @@ import Hm.Statements
 #print axioms Rhymuri.parse_display_path
 #print axioms Rhymuri.decode_encode
 #print axioms Rhymuri.splitSlash_join
+#print axioms C07_chunk_reserve_bounded
+#print axioms C07_response_reserve_bounded
+#print axioms C05_complete_only_if_wellformed
+#print axioms Headers.parse_cut
+#print axioms chunkLoop_sound
